@@ -334,6 +334,33 @@ def rule_spread_once(check):
             else_none = any(x.get("k") == "Path" and (x["res"].get("ctor_path") or "").split("::")[-1] == "None" for x in hir.walk(el))
             ok = cond_ok and then_some and else_none
         check.expect(ok, R, R + "/spread-iff-kind", hir.loc(n), "argument is spread iff kind == Spread", "get_expr_or_spread does not spread exactly the Spread kind")
+    # the kind travels with the operand: inside the operand handler every callee that takes an
+    # IdentKind receives the caller's own IdentKind parameter (never a constant, never dropped)
+    n_kind = 0
+    for g in prog.user_fns:
+        if "OperandHandler" not in g.def_path or g.name == "replace_expressions_in_expr_or_spread":
+            continue
+        takes_operand = any(core_type(p["ty"]).endswith("swc_ecma_ast::Expr") for p in g.rec["params"])
+        if not takes_operand:
+            continue
+        kind_params = [i for i, p in enumerate(g.rec["params"]) if p["ty"].endswith("IdentKind")]
+        for n in g.nodes():
+            if not hir.is_call(n):
+                continue
+            tgt = prog.resolve_local(n)
+            if tgt is None:
+                continue
+            # find the argument positions of the callee that are of type IdentKind
+            off = 0
+            cps = tgt.rec.get("params", [])
+            args = hir.call_args(n)
+            for i, p in enumerate(cps):
+                if p["ty"].endswith("IdentKind") and i < len(args):
+                    n_kind += 1
+                    os_ = pv.origins(g, args[i])
+                    ok = bool(kind_params) and all(r[0] == "param" and r[1] == g.def_path and r[2] in kind_params for r, pr in os_)
+                    check.expect(ok, R, "%s/kind-flow/%s->%s" % (R, g.name, tgt.name), hir.loc(n), "%s passes its own IdentKind on to %s" % (g.name, tgt.name), "%s calls %s with kind %s instead of the kind of the operand it handles: a spread operand is captured or reported un-spread" % (g.name, tgt.name, sorted(origin_str(o) for o in os_)))
+    check.floor(R, "IdentKind hand-overs inside the operand handler", n_kind, 4)
     h = prog.fn("OperandHandler::replace_expressions_in_expr_or_spread")
     kinds = [n for n in hir.walk(h.body) if n.get("k") == "If"]
     ok = False
@@ -454,6 +481,37 @@ def rule_hoist_paren(check):
                         kinds.append(("bare", "not-seq" if gate.has_call_gate(atoms, "is_seq", False) else "unguarded"))
     want = {("Array", "spread"), ("Paren", "seq"), ("bare", "not-seq")}
     check.expect(set(kinds) == want, R, R + "/assign-right", hir.loc(f.rec), "assignment right side: [...x] | (a, b) parenthesised | bare non-sequence", "assignment right side shapes are %s: a comma expression would be hoisted as `t = a, b`" % sorted(set(kinds)))
+    # parentheses of the input are never stripped: a node taken out of ParenExpr.expr (category
+    # Expression) would land in the tighter slot its parent occupied and swc prints the tree as given
+    n_ret = 0
+    for g in xform_fns(prog):
+        outs = []
+        rty = core_type(g.rec.get("ret") or "")
+        if rty.startswith("swc_ecma_ast::") or "swc_ecma_ast::" in (g.rec.get("ret") or ""):
+            outs += [(r, "result of %s" % g.name) for r in return_exprs(g.body)]
+        for n in g.nodes():
+            if hir.is_call(n) and (hir.callee_name(n) or n.get("method")) == "map_with_mut":
+                for a in hir.call_args(n)[1:]:
+                    cl = hir.peel(a)
+                    if cl.get("k") == "Closure":
+                        outs += [(r, "in-place replacement in %s" % g.name) for r in return_exprs(cl["body"])]
+                    else:
+                        h = prog.resolve_local(cl) if hir.is_call(cl) else None
+                        dp = hir.def_path_of(cl)
+                        h = prog.by_generic_free().get(__import__("iast.engine", fromlist=["x"])._generic_free(dp)) if dp else h
+                        if h is not None and h.body is not None:
+                            outs += [(r, "in-place replacement by %s" % h.name) for r in return_exprs(h.body)]
+            if n.get("k") == "Struct" and (n["res"].get("path") or "").startswith("swc_ecma_ast::"):
+                outs += [(fl["e"], "field %s.%s" % (n["res"]["path"].split("::")[-1], fl["name"])) for fl in n["fields"] if "swc_ecma_ast::Expr" in (hir.peel(fl["e"]).get("ty") or "")]
+        for r, where in outs:
+            n_ret += 1
+            gg = g
+            for root, proj in pv.origins(gg, r):
+                for i in range(len(proj) - 1):
+                    if proj[i] == "Paren.0" and proj[i + 1] == "expr":
+                        check.bad(R, "%s/paren-strip/%s" % (R, g.name), hir.loc(r), "%s: the content of a parenthesised input expression is moved out of its parentheses (%s): grouping is lost when printed" % (where, origin_str((root, proj))))
+    check.ok(R, R + "/paren-strip-scan", "-", "%d output positions scanned: no input ParenExpr is unwrapped" % n_ret)
+    check.floor(R, "output positions scanned for paren stripping", n_ret, 30)
     ca = prog.fn("IdentProvider::create_assign_expression")
     rights = [x["e"] for n in hir.walk(ca.body) if n.get("k") == "Struct" and (n["res"].get("path") or "").endswith("AssignExpr") for x in n["fields"] if x["name"] == "right"]
     ok = len(rights) == 1 and hir.is_call(hir.peel(rights[0])) and hir.callee_name(hir.peel(rights[0])) == "create_assign_right_operand_expression"
